@@ -11,13 +11,18 @@ Definition flag_of_code (z : Z) : sflag :=
 Definition dinfer := ginfer FDefault.
 
 (* kind 0: sort verb / DSL sort(array): the checker.  kind 1: the documentation's stability claim.
-   kind 2: sort-within-records: model output = observed output.  kind 3: DSL sort(array, ...): array checker. *)
+   kind 2: sort-within-records: model output = observed output.  kind 3: DSL sort(array, ...): array checker.
+   kind 5: sort verb with natural-order keys outside the clean domain: the weak checker (adjacent pairs)
+   and, the harness sending at most 20 groups, output = the verb model [sort_model] (insertion sort by the modelled callback).
+   kind 6: as kind 0, and output = [sort_model] (at most 20 groups). *)
 Definition case := (Z * list (bytes * Z) * list record * list record)%type.
 Definition chk (c : case) : bool :=
   let '(kind, ks, inp, out) := c in
   let ks' := map (fun p => (fst p, flag_of_code (snd p))) ks in
   if kind =? 0 then check_sort dinfer natsort_less ks' inp out
   else if kind =? 1 then check_stable dinfer natsort_less ks' inp out
+  else if kind =? 5 then check_sort_adj dinfer natsort_less ks' inp out && records_eqb out (sort_model dinfer natsort_less ks' inp)
+  else if kind =? 6 then check_sort dinfer natsort_less ks' inp out && records_eqb out (sort_model dinfer natsort_less ks' inp)
   else if kind =? 3 then match ks' with
                          | (name, f) :: _ => check_array_sort dinfer natsort_less name f inp out
                          | [] => false
